@@ -4,15 +4,16 @@
   Spec side : `Laws` (Spec/Laws.lean: KCL + every component's defining relation), `Realises`
               (Spec/StateSpace.lean: the state and output equations of a realisation reproduce b(s)/a(s)).
   Model side: `nodalEq`, `meshEq` (Model/Formulations.lean), `ccf`, `ocf`, `dcf` (Model/Realisations.lean).
-  `patched = true` is the code with the minimal patches for findings F13/F18/F19/F20 applied,
+  `patched = true` is the code with the minimal patches for findings F13/C15-c/C15-b/C15-d applied,
   `patched = false` the code as it is; theorems about the latter are `…_partial` and name the
   excluded region, which the oracle of harness/c15.py covers on the real code.
   Only property theorems live here; helper lemmas are in Proofs/Formulations.lean, Proofs/Realisations.lean.
 -/
 import Lcapy.Proofs.Formulations
+import Lcapy.Proofs.Realisations
 import Mathlib.Tactic.NormNum
 namespace Lcapy.C15
-open Lcapy.MNA Lcapy.Formulations Ix
+open Lcapy.MNA Lcapy.Formulations Lcapy.StateSpace Ix
 variable {K : Type} [Field K]
 
 /-! ## nodal analysis -/
@@ -58,14 +59,14 @@ theorem nodal_eqs_hold (kind : Kind) (s : K) (cs : List (Cpt K)) (x : Ix → K)
       refine ⟨fun hi => ?_, fun hi => outflow_not_incident kind s x k c (hdef c hc) hi⟩
       exact kclTerm_patched kind s x k c (hdef c hc) (hnoV c hc hi) hi (hlaws.2 c hc)
 
-/- Full statement for the code as it is -- FALSE (findings F13, F19):
+/- Full statement for the code as it is -- FALSE (findings F13, C15-b):
    theorem nodal_eqs_hold_asis … : (nodalEq false kind s cs k).eval x = 0
    fails for `I1 1 0 dc 2; R1 1 2 3; R2 2 0 5` at node 1 (see `f13_defect` below). -/
 
 /-- **nodal_eqs_hold_partial** (code as it is): the same conclusion wherever no incident component
     is seen from its unsafe side.  Excluded region, covered by the oracle on the real code:
     KCL at the FIRST node of an independent current source (F13) and at the SECOND node of a
-    capacitor / inductor that carries an initial condition (F19). -/
+    capacitor / inductor that carries an initial condition (C15-b). -/
 theorem nodal_eqs_hold_partial (kind : Kind) (s : K) (cs : List (Cpt K)) (x : Ix → K)
     (hdef : NodalDefined kind s cs) (hlaws : Laws kind s cs x) (k : Nat) (hk : k ≠ 0)
     (hsafe : ∀ c ∈ cs, incident k c = true → SafeAt kind s k c) :
@@ -126,5 +127,246 @@ theorem kvl_telescopes (x : Ix → K) (loop : List GNode) :
   | cons a t =>
     simp only [loopPairs]
     rw [pairsFrom_telescope (gvolt x) a a t, sub_self]
+
+/-! ## mesh analysis -/
+
+/-- the mesh formulation is defined for the netlist: R, Y, C, L, V with an impedance at s (the code
+    raises for current sources and dependent sources), no shorted component, no mutual coupling -/
+def MeshDefined (kind : Kind) (s : K) (cs : List (Cpt K)) : Prop := ∀ c ∈ cs, MeshOk kind s c
+
+/-- the mesh currents `im` carry the solution `x`: for every passive component the loop passes
+    through, the current the code accumulates from the mesh currents (`_add_mesh_currents`) is
+    the component's actual current (the code's sign: from second to first node) -/
+def MeshConsistent (patched : Bool) (kind : Kind) (s : K) (cs : List (Cpt K)) (loops : List (List GNode))
+    (x : Ix → K) (im : Nat → K) (loop : List GNode) : Prop :=
+  ∀ ab ∈ loopPairs loop, ∀ idx c, component (buildGraph cs) ab.1 ab.2 = some (idx, c) → isV c = false →
+    meshCurrent patched (buildGraph cs) loops idx c im = -(through kind s x c)
+
+/-- **mesh_eqs_hold** (patched code): for every netlist, every list of loops handed in by the cycle
+    search and every loop among them that passes the decidable `isSimpleCycle` check against the
+    circuit graph, the KVL equation `_process_loop` writes is satisfied by any solution of the
+    circuit laws, with mesh currents that carry that solution. -/
+theorem mesh_eqs_hold (kind : Kind) (s : K) (cs : List (Cpt K)) (x : Ix → K) (loops : List (List GNode))
+    (im : Nat → K) (hdef : MeshDefined kind s cs) (hlaws : Laws kind s cs x) (loop : List GNode)
+    (hcyc : isSimpleCycle (buildGraph cs) loop = true)
+    (hcons : MeshConsistent true kind s cs loops x im loop)
+    (f : MeshForm K) (hf : meshEq true kind s (buildGraph cs) loops loop = some f) : f.eval im = 0 := by
+  rw [meshEq_eval true kind s (buildGraph cs) loops x im (loopPairs loop) ?_ f hf]
+  · exact kvl_telescopes x loop
+  · intro ab hab t ht
+    exact meshTerm_eval true kind s cs (buildGraph cs) (buildGraph_ok cs) loops x im hlaws hdef
+      (fun h => absurd h (by simp)) ab (adjacent_of_cycle _ loop hcyc ab hab) (hcons ab hab) t ht
+
+/-- non-vacuity: V1 1 0 6; R1 1 2 3; R2 2 0 5 with its solution, the loop 0-1-2 and the mesh current 3/4 -/
+example : isSimpleCycle (buildGraph exCkt) exLoop = true := exLoop_cycle
+example : MeshDefined .dc (0 : ℚ) exCkt := by
+  intro c hc; simp [exCkt] at hc; rcases hc with rfl | rfl | rfl <;> simp [MeshOk]
+example : MeshConsistent true .dc 0 exCkt [exLoop] exSol (fun _ => 3/4) exLoop := by
+  intro ab hab idx c hc hv
+  rcases exIdx ab hab idx c hc hv with ⟨rfl, rfl⟩ | ⟨rfl, rfl⟩
+  · simp only [meshCurrent, nodes2, if_true, exAcc1]
+    norm_num [accCoeffs, lsum, through, exSol, vd, volt]
+  · simp only [meshCurrent, nodes2, if_true, exAcc2]
+    norm_num [accCoeffs, lsum, through, exSol, vd, volt]
+
+/- Full statement for the code as it is -- FALSE (findings C15-c, C15-d):
+   theorem mesh_eqs_hold_asis … (hcons : MeshConsistent false …) (hf : meshEq false … = some f) : f.eval im = 0
+   fails for `V1 1 0 step 6; R1 1 2 3; R2 2 0 5; R3 2 0 7` (parallel R2, R3) and for any loop through an
+   inductor or capacitor with an initial condition. -/
+
+/-- **mesh_eqs_hold_partial** (code as it is): the same conclusion when the graph has no dummy
+    node (no two components join the same pair of nodes, C15-c) and no component carries an
+    initial-condition term (C15-d).  Both excluded regions are covered by the oracle on the real code. -/
+theorem mesh_eqs_hold_partial (kind : Kind) (s : K) (cs : List (Cpt K)) (x : Ix → K) (loops : List (List GNode))
+    (im : Nat → K) (hdef : MeshDefined kind s cs) (hlaws : Laws kind s cs x) (loop : List GNode)
+    (hcyc : isSimpleCycle (buildGraph cs) loop = true)
+    (hnopar : ∀ e ∈ buildGraph cs, ∃ n, e.b = GNode.real n)
+    (hnoic : ∀ c ∈ cs, NoIC kind s c)
+    (hcons : MeshConsistent false kind s cs loops x im loop)
+    (f : MeshForm K) (hf : meshEq false kind s (buildGraph cs) loops loop = some f) : f.eval im = 0 := by
+  rw [meshEq_eval false kind s (buildGraph cs) loops x im (loopPairs loop) ?_ f hf]
+  · exact kvl_telescopes x loop
+  · intro ab hab t ht
+    exact meshTerm_eval false kind s cs (buildGraph cs) (buildGraph_ok cs) loops x im hlaws hdef
+      (fun _ => ⟨hnopar, hnoic⟩) ab (adjacent_of_cycle _ loop hcyc ab hab) (hcons ab hab) t ht
+
+/-! ## canonical state-space realisations of a transfer function (continuous and discrete time) -/
+
+/-- **ss_transfer**: for ANY state-space model (A, B, C, D) of any order, at a point s that is not a
+    natural frequency the Laplace-domain state equation (sI − A)X = B·U has at most one solution,
+    so the output of every solution is the one obtained from H = (sI − A)⁻¹B that `StateSpace.G`
+    uses:  Y/U = C (sI − A)⁻¹ B + D  is well defined and is what the state and output equations imply. -/
+theorem ss_transfer (sys : SS K) (s : K) (hns : ¬ IsNaturalFreq sys s) (X H : Nat → K)
+    (hX : StateEq sys s X) (hH : StateEq sys s H) : output sys X = output sys H := by
+  have hz : ∀ i, i < sys.n → X i = H i := by
+    intro i hi
+    by_contra hne
+    apply hns
+    refine ⟨fun j => X j - H j, ⟨i, hi, sub_ne_zero.mpr hne⟩, ?_⟩
+    intro k hk
+    have h1 := hX k hk
+    have h2 := hH k hk
+    simp only [stateRow] at h1 h2
+    have : sumTo sys.n (fun j => sys.A k j * (X j - H j)) =
+        sumTo sys.n (fun j => sys.A k j * X j) - sumTo sys.n (fun j => sys.A k j * H j) := by
+      rw [← sumTo_sub]; apply sumTo_congr; intro j _; ring
+    rw [this]
+    linear_combination h1 - h2
+  simp only [output]
+  congr 1
+  apply sumTo_congr
+  intro j hj
+  rw [hz j hj]
+
+/-- **ccf_realises**: for coefficient lists of ANY degree, the controllable canonical form that
+    `from_ba_CCF` builds (after its normalisation by a₀ and zero padding of b) has the transfer
+    function b(s)/a(s): at every s with a(s) ≠ 0 the state equation (sI − A)X = B is solvable and
+    every solution gives C·X + D = b(s)/a(s).  The same statement with z for s is the
+    discrete-time one (`DTStateSpace` uses the same constructor). -/
+theorem ccf_realises (b a : List K) (h : ProperTF b a) : ∃ sys, ccf b a = some sys ∧ Realises sys b a := by
+  obtain ⟨b', a', hprep, hla, hlb, ha0, hval⟩ := prep_spec b a h
+  obtain ⟨hlen, hlead, _⟩ := h
+  refine ⟨ccfOf b' a', by simp [ccf, hprep], ?_⟩
+  obtain ⟨N, hN⟩ : ∃ N, a.length = N + 1 := ⟨a.length - 1, by omega⟩
+  have hN1 : 1 ≤ N := by omega
+  have ha' : a'.length = N + 1 := by omega
+  have hb' : b'.length = N + 1 := by omega
+  have hn : (ccfOf b' a').n = N := by simp [ccfOf, ha']
+  intro s hs
+  have hpa : polyEval a' s ≠ 0 := by rw [(hval s).1]; exact div_ne_zero hs hlead
+  have hB : ∀ i, (ccfOf b' a').B i = if i + 1 = N then 1 else 0 := by intro i; simp [ccfOf, ha']
+  constructor
+  · refine ⟨fun n => pw s n * (1 / polyEval a' s), ?_⟩
+    intro i hi
+    rw [hn] at hi
+    simp only [stateRow, hn]
+    rw [ccf_rows_conv b' a' N ha' hN1 ha0 s _ i hi, hB]
+    split_ifs
+    · field_simp
+    · rfl
+  · intro X hX
+    have hrow : ∀ i, i < N → s * X i - sumTo N (fun j => (ccfOf b' a').A i j * X j) = (ccfOf b' a').B i := by
+      intro i hi
+      have := hX i (by rw [hn]; exact hi)
+      simpa only [stateRow, hn] using this
+    obtain ⟨hpow, hX0⟩ := ccf_rows b' a' N ha' hN1 ha0 s X _ hrow (by intro i hi; rw [hB]; simp; omega)
+    rw [hB, if_pos (by omega)] at hX0
+    have := ccf_output b' a' N ha' hb' ha0 s X hpow hX0
+    rw [(hval s).1, (hval s).2] at this
+    field_simp at this
+    exact this
+
+/-- **ccf_natural_freqs** (`charpoly_natural_freqs`): the natural frequencies of the companion
+    matrix -- the points where (sI − A) is singular, i.e. the roots of its characteristic
+    polynomial -- are exactly the roots of the denominator a(s), for every degree. -/
+theorem ccf_natural_freqs (b a : List K) (h : ProperTF b a) (s : K) :
+    ∃ sys, ccf b a = some sys ∧ (IsNaturalFreq sys s ↔ polyEval a s = 0) := by
+  obtain ⟨b', a', hprep, hla, hlb, ha0, hval⟩ := prep_spec b a h
+  obtain ⟨hlen, hlead, _⟩ := h
+  refine ⟨ccfOf b' a', by simp [ccf, hprep], ?_⟩
+  obtain ⟨N, hN⟩ : ∃ N, a.length = N + 1 := ⟨a.length - 1, by omega⟩
+  have hN1 : 1 ≤ N := by omega
+  have ha' : a'.length = N + 1 := by omega
+  have hn : (ccfOf b' a').n = N := by simp [ccfOf, ha']
+  have hiff : polyEval a s = 0 ↔ polyEval a' s = 0 := by
+    rw [(hval s).1]; constructor
+    · intro h0; rw [h0, zero_div]
+    · intro h0; rcases div_eq_zero_iff.mp h0 with h1 | h1
+      · exact h1
+      · exact absurd h1 hlead
+  rw [hiff]
+  constructor
+  · rintro ⟨X, ⟨i, hi, hXi⟩, hrows⟩
+    rw [hn] at hi hrows
+    obtain ⟨hpow, hX0⟩ := ccf_rows b' a' N ha' hN1 ha0 s X (fun _ => 0) hrows (fun _ _ => rfl)
+    by_contra hne
+    have : X 0 = 0 := by
+      rcases mul_eq_zero.mp hX0 with h1 | h1
+      · exact absurd h1 hne
+      · exact h1
+    exact hXi (by rw [hpow i hi, this, mul_zero])
+  · intro h0
+    refine ⟨fun n => pw s n * 1, ⟨0, by rw [hn]; omega, by simp [pw]⟩, ?_⟩
+    intro i hi
+    rw [hn] at hi ⊢
+    rw [ccf_rows_conv b' a' N ha' hN1 ha0 s 1 i hi, h0]
+    simp
+
+/-- **ocf_realises**: the observable canonical form of `from_ba_OCF` has the transfer function
+    b(s)/a(s), for every degree (same statement with z for discrete time). -/
+theorem ocf_realises (b a : List K) (h : ProperTF b a) : ∃ sys, ocf b a = some sys ∧ Realises sys b a := by
+  obtain ⟨b', a', hprep, hla, hlb, ha0, hval⟩ := prep_spec b a h
+  obtain ⟨hlen, hlead, _⟩ := h
+  refine ⟨ocfOf b' a', by simp [ocf, hprep], ?_⟩
+  obtain ⟨N, hN⟩ : ∃ N, a.length = N + 1 := ⟨a.length - 1, by omega⟩
+  have hN1 : 1 ≤ N := by omega
+  have ha' : a'.length = N + 1 := by omega
+  have hb' : b'.length = N + 1 := by omega
+  have hn : (ocfOf b' a').n = N := by simp [ocfOf, ha']
+  intro s hs
+  have hpa : polyEval a' s ≠ 0 := by rw [(hval s).1]; exact div_ne_zero hs hlead
+  constructor
+  · refine ⟨fun k => polyEval (a'.take (k + 1)) s * (polyEval b' s / polyEval a' s) - polyEval (b'.take (k + 1)) s, ?_⟩
+    intro i hi
+    rw [hn] at hi
+    simp only [stateRow, hn]
+    have := ocf_rows_conv b' a' N ha' hb' hN1 ha0 s (polyEval b' s / polyEval a' s) i hi
+    simp only at this
+    rw [sub_eq_iff_eq_add] at this
+    rw [this, polyEval_take_one a' s (by omega), polyEval_take_one b' s (by omega), ha0]
+    split_ifs
+    · field_simp; ring
+    · ring
+  · intro X hX
+    have hrow : ∀ i, i < N → s * X i - sumTo N (fun j => (ocfOf b' a').A i j * X j) = (ocfOf b' a').B i := by
+      intro i hi
+      have := hX i (by rw [hn]; exact hi)
+      simpa only [stateRow, hn] using this
+    obtain ⟨_, hy⟩ := ocf_rows b' a' N ha' hb' hN1 ha0 s X hrow
+    have hout : output (ocfOf b' a') X = X 0 + coef b' 0 := by
+      simp only [output, hn]
+      have hC : ∀ j, (ocfOf b' a').C j * X j = if j = 0 then X j else 0 := by
+        intro j; simp only [ocfOf]; split_ifs <;> simp
+      rw [sumTo_congr N _ _ (fun j _ => hC j), sumTo_single, if_pos (by omega)]
+      simp [ocfOf]
+    rw [hout]
+    rw [(hval s).1, (hval s).2] at hy
+    field_simp at hy
+    linear_combination hy
+
+/-- **dcf_transfer**: the diagonal form A = diag(p), B = ones, C = r, D = d has the transfer
+    function d + Σ rᵢ/(s − pᵢ) at every s that is not a pole -- so it realises b/a exactly when the
+    poles and residues handed in are a partial-fraction expansion of b/a (checked by the oracle;
+    it is not for bi-proper b/a in the code as it is, finding C15-e). -/
+theorem dcf_transfer (b a poles residues : List K) (s : K)
+    (hs : ∀ i, i < a.length - 1 → s - coef poles i ≠ 0) (X : Nat → K)
+    (hX : StateEq (dcfOf b a poles residues) s X) :
+    output (dcfOf b a poles residues) X =
+      sumTo (a.length - 1) (fun i => coef residues i / (s - coef poles i)) + (dcfOf b a poles residues).D := by
+  simp only [output]
+  have hn : (dcfOf b a poles residues).n = a.length - 1 := rfl
+  rw [hn]
+  congr 1
+  apply sumTo_congr
+  intro i hi
+  have h := hX i (by rw [hn]; exact hi)
+  simp only [stateRow, hn] at h
+  have hA : ∀ j, (dcfOf b a poles residues).A i j * X j = if j = i then coef poles i * X j else 0 := by
+    intro j; simp only [dcfOf]
+    by_cases hji : j = i
+    · subst hji; simp
+    · have : ¬ (i = j) := fun h => hji h.symm
+      simp [hji, this]
+  rw [sumTo_congr _ _ _ (fun j _ => hA j), sumTo_single, if_pos hi] at h
+  have hB : (dcfOf b a poles residues).B i = 1 := rfl
+  rw [hB] at h
+  have hXi : X i = 1 / (s - coef poles i) := by
+    rw [eq_div_iff (hs i hi)]; linear_combination h
+  simp only [dcfOf]
+  rw [hXi]; ring
+
+/-- non-vacuity: (3s² + 2s + 5)/(2s³ + 4s² + 7s + 1) is a proper transfer function -/
+example : ProperTF ([3, 2, 5] : List ℚ) [2, 4, 7, 1] := by
+  refine ⟨by simp, by norm_num [coef], by simp⟩
 
 end Lcapy.C15
